@@ -180,3 +180,67 @@ def run(F, ctx):
         raise CheckError("hash_ir_recursive: no Filter arm")
     ctx.end_rule()
 
+    # ---- d: name-based rebuilding needs unique column names in every leaf
+    ctx.rule("R-C02-d", "join reordering rebuilds the tree by column name: it is reached only when no leaf carries two columns of one name", floor=1)
+    rebuilds = [c for c in f.normal_calls() if (c.resolved or "").endswith("JoinPlanner::rebuild_ir_with_order")]
+    if not rebuilds:
+        raise CheckError("plan_joins no longer calls rebuild_ir_with_order (anchor moved)")
+    # is the rebuild name-based at all?  (a position lookup by name in it or in its callees)
+    by_name = False
+    for n in F.reach([rebuilds[0].resolved]):
+        if n in F.bodies and n.startswith("join_planning::"):
+            for c in F.fn(n).normal_calls():
+                if re.search(r"Iterator>::position::<", c.static_args or "") or re.search(r"<impl \[std::string::String\]>::contains$", c.static_args or ""):
+                    by_name = True
+    guards_d = []
+    for c in f.normal_calls():
+        if not re.search(r"Iterator>::(any|all)::<", c.static_args or ""):
+            continue
+        kind = re.search(r"Iterator>::(any|all)::<", c.static_args).group(1)
+        clo = None
+        for a in c.args:
+            if a.get("clo"):
+                clo = a["clo"]
+            al = op_local(a)
+            for i_ in range(f.n):
+                for st in f.stmts(i_):
+                    rv = st["r"]
+                    if al is not None and st["d"]["l"] == al and rv.get("k") == "agg" and rv.get("ak") == "closure":
+                        clo = rv["def"]
+        if clo is None or clo not in F.bodies:
+            continue
+        g = F.fn(clo)
+        set_len = [x for x in g.normal_calls() if re.search(r"(HashSet|BTreeSet)::<.*>::len$", x.static_args or "")]
+        vec_len = [x for x in g.normal_calls() if re.search(r"(Vec::<std::string::String>|<impl \[std::string::String\]>)::len$", x.static_args or "")]
+        if not set_len or not vec_len:
+            # duplicate detection written with `seen.insert(name)` instead of a size comparison
+            if any(re.search(r"(HashSet|BTreeSet)::<.*>::insert$", x.static_args or "") for x in g.normal_calls()):
+                br = common.branch_on_result(f, c)
+                if br:
+                    for (a_t, b_t) in ((br[1], br[2]), (br[2], br[1])):
+                        guards_d.append((c, a_t, b_t))
+            continue
+        sd = g.derive({x.dst["l"] for x in set_len}, through_calls=False)
+        vd = g.derive({x.dst["l"] for x in vec_len}, through_calls=False)
+        op = None
+        for i_ in range(g.n):
+            for st in g.stmts(i_):
+                rv = st["r"]
+                if rv.get("k") == "bin" and rv["op"] in ("Eq", "Ne"):
+                    a_, b_ = op_local(rv["a"]), op_local(rv["b"])
+                    if (a_ in sd and b_ in vd) or (a_ in vd and b_ in sd):
+                        op = rv["op"]
+        br = common.branch_on_result(f, c)
+        if op and br:
+            # any(!=) true / all(==) false  <=> some leaf has duplicate names
+            dup_t = br[2] if (kind, op) in (("any", "Ne"),) else (br[1] if (kind, op) in (("all", "Eq"),) else None)
+            ok_t = br[1] if (kind, op) in (("any", "Ne"),) else (br[2] if (kind, op) in (("all", "Eq"),) else None)
+            if dup_t is not None:
+                guards_d.append((c, ok_t, dup_t))
+    for r_ in rebuilds:
+        ok = (not by_name) or any(f.dominates(ok_t, r_.bb) and not f.dominates(dup_t, r_.bb) for (_c, ok_t, dup_t) in guards_d)
+        ctx.site("rebuild_ir_with_order is reached only with unique column names per leaf", r_.where(), ok=ok, rebuild_by_name=by_name, duplicate_name_guards=len(guards_d))
+        if not ok:
+            ctx.violation(JP + "::plan_joins:R-C02-d:rebuild-by-name-with-duplicate-names", "the reordered join tree is rebuilt by column name, but nothing keeps trees out whose leaf carries one variable in two columns (an atom such as e(X,X)): keys and projections looked up by name land on the wrong column - `q(X,Z) <- m(X,Z), e(X,X)` returns 2 rows with join planning on and 3 with it off", r_.where())
+    ctx.end_rule()
+
